@@ -16,9 +16,11 @@
 (***************************************************************************)
 EXTENDS Naturals, Sequences, FiniteSets, TLC, Json
 
-CONSTANTS Deep      \* TRUE: more histories
+CONSTANTS Deep,     \* TRUE: more histories
+          Twice     \* TRUE: two update-engine calls in a row per history (fewer words, no typing before)
 
-Words == {"as", "onno", "academy"}
+AllWords == {"as", "onno", "academy"}
+Words == IF Twice THEN {"as", "academy"} ELSE AllWords
 
 PC(sug, eng, smart, ansi) ==
     [layout |-> "phonetic", psug |-> sug, fsug |-> FALSE, english |-> eng, ansi |-> ansi, smart |-> smart,
@@ -29,7 +31,8 @@ FC(lay, sug, eng, vowel, ko) ==
 AllConfigs == {PC(TRUE, FALSE, TRUE, FALSE), PC(TRUE, TRUE, FALSE, FALSE), PC(FALSE, FALSE, TRUE, FALSE), PC(TRUE, FALSE, TRUE, TRUE),
                FC("probhat", TRUE, TRUE, TRUE, FALSE), FC("synth", TRUE, TRUE, TRUE, FALSE), FC("probhat", FALSE, FALSE, FALSE, TRUE)}
 FewConfigs == {PC(TRUE, FALSE, TRUE, FALSE), PC(TRUE, TRUE, FALSE, FALSE), FC("probhat", TRUE, TRUE, TRUE, FALSE), FC("synth", FALSE, FALSE, FALSE, TRUE)}
-Configs == IF Deep THEN AllConfigs ELSE FewConfigs
+TwiceConfigs == {PC(TRUE, FALSE, TRUE, FALSE), PC(FALSE, FALSE, TRUE, FALSE), FC("probhat", TRUE, TRUE, TRUE, FALSE)}
+Configs == IF Twice THEN TwiceConfigs ELSE IF Deep THEN AllConfigs ELSE FewConfigs
 MaxEdits == IF Deep THEN 2 ELSE 1
 Phon(c) == c.layout = "phonetic"
 
@@ -37,7 +40,7 @@ Phon(c) == c.layout = "phonetic"
 VARIABLES cfg, file, stamp, loaded, loadedAt, memo, phase, hist
 vars == <<cfg, file, stamp, loaded, loadedAt, memo, phase, hist>>
 
-NoEntries == [w \in Words |-> 0]
+NoEntries == [w \in AllWords |-> 0]
 
 Init == /\ cfg \in Configs
         /\ file \in {NoEntries, [NoEntries EXCEPT !["as"] = 1]}      \* the file the context starts over
@@ -48,10 +51,15 @@ Init == /\ cfg \in Configs
         /\ hist = <<[op |-> "start", cfg |-> cfg, file |-> file, w |-> ""]>>
 
 \* typing a word and finishing it: the memo remembers the answer computed now
+Updates == {j \in 1..Len(hist) : hist[j].op = "update"}
+LastUpd == CHOOSE j \in Updates : \A k \in Updates : k <= j
+MaxUpdates == IF Twice THEN 2 ELSE 1
+TypesSinceUpd == Cardinality({i \in 1..Len(hist) : hist[i].op = "type" /\ i > LastUpd})
+
 Type(w) ==
     /\ phase \in {"pre", "post"}
-    /\ (phase = "pre" => Cardinality({i \in 1..Len(hist) : hist[i].op = "type"}) < (IF Deep THEN 2 ELSE 1))
-    /\ (phase = "post" => Cardinality({i \in 1..Len(hist) : hist[i].op = "type" /\ i > CHOOSE j \in 1..Len(hist) : hist[j].op = "update"}) < 2)
+    /\ (phase = "pre" => Cardinality({i \in 1..Len(hist) : hist[i].op = "type"}) < (IF Twice THEN 0 ELSE IF Deep THEN 2 ELSE 1))
+    /\ (phase = "post" => TypesSinceUpd < 2)
     /\ memo' = IF Phon(cfg) /\ cfg.psug /\ w \notin DOMAIN memo THEN [x \in DOMAIN memo \cup {w} |-> IF x = w THEN loaded[w] ELSE memo[x]] ELSE memo
     /\ hist' = Append(hist, [op |-> "type", cfg |-> cfg, file |-> file, w |-> w])
     /\ UNCHANGED <<cfg, file, stamp, loaded, loadedAt, phase>>
@@ -71,7 +79,9 @@ Edit(w) ==
 \* the user auto-correct list when the file's stamp advanced.  The memo is cleared together with the reload
 \* (fix F08; the pinned tree kept it).
 Update(c) ==
-    /\ phase \in {"pre", "edit"}
+    /\ Cardinality(Updates) < MaxUpdates
+    \* a second update follows the first directly (several updates in a row), on the same layout
+    /\ (phase \in {"pre", "edit"} \/ (phase = "post" /\ TypesSinceUpd = 0 /\ c.layout = cfg.layout))
     /\ cfg' = c
     /\ IF c.layout # cfg.layout
        THEN /\ memo' = [w \in {} |-> 0]
@@ -97,7 +107,6 @@ StepsA == [i \in 1..Len(hist) |->
                 [] hist[i].op = "type"   -> [op |-> "typefinish", cfg |-> "", acfile |-> "", stamp |-> 0, w |-> hist[i].w]
                 [] hist[i].op = "edit"   -> [op |-> "acwrite", cfg |-> "", acfile |-> hist[i].file, stamp |-> i, w |-> ""]
                 [] OTHER                 -> [op |-> "update", cfg |-> hist[i].cfg, acfile |-> "", stamp |-> 0, w |-> ""]]
-PostTypes == Cardinality({i \in 1..Len(hist) : hist[i].op = "type" /\ i > CHOOSE j \in 1..Len(hist) : hist[j].op = "update"})
-Emit == (phase = "post" /\ PostTypes = 2) =>
+Emit == (phase = "post" /\ TypesSinceUpd = 2 /\ Cardinality(Updates) = MaxUpdates) =>
            PrintT(<<"REPLAY", ToJson([mc |-> "MC_Update", steps |-> StepsA])>>)
 =============================================================================
